@@ -198,9 +198,9 @@ func keyedHistory(depth int) func() {
 			k.SetContext(context.Background(), false)
 		}
 		hist := []string{fmt.Sprintf("config{delay=%v ctx=%v script=%d}", delay, ctxSet, script)}
-		syncSets := [][]string{{}, {"a"}, {"b"}, {"a", "b"}, {"a", "a", "b"}}
+		syncSets := [][]string{{}, {"a"}, {"b"}, {"a", "b"}, {"a", "a", "b"}, {"a", "a"}}
 		for step := 0; step < depth; step++ {
-			l := vsched.Choose(12)
+			l := vsched.Choose(13)
 			vsched.Observe(oOp, int64(l), 0, 0)
 			switch {
 			case l < 4: // SetKey(a|b, start f|t)
@@ -221,7 +221,7 @@ func keyedHistory(depth int) func() {
 					fail("C06.removekey-result", "%v: RemoveKey returned %v, reference model %v", hist, ex, wex)
 					return
 				}
-			case l < 11: // SyncKeys
+			case l < 12: // SyncKeys
 				set := syncSets[l-6]
 				restart := l == 10
 				hist = append(hist, fmt.Sprintf("SyncKeys(%v,%v)", set, restart))
@@ -363,7 +363,7 @@ func init() {
 	ops := map[int32]string{oOp: "letter"}
 	eng.Register(&eng.Scenario{
 		Name: "keyed-history", Props: []string{"C06"}, QuickOnly: true, Det: true, Manual: true, NoRace: true, ObsNames: ops,
-		Doc:   "Keyed: every sequence of 5 operations over {SetKey(a|b,start f|t), RemoveKey(a|b), SyncKeys({},{a},{b},{a,b},{a,a,b}+restart), FireEarliestTimer} x release delay {0,d} x context {unset,set} x routine script {blocks, returns nil, returns error}; after every operation GetKeys/GetKey/GetKeysWithData and the call's results are compared with a reference model; finally every armed delay expires",
+		Doc:   "Keyed: every sequence of 5 operations over {SetKey(a|b,start f|t), RemoveKey(a|b), SyncKeys({},{a},{b},{a,b},{a,a,b}+restart,{a,a}), FireEarliestTimer} x release delay {0,d} x context {unset,set} x routine script {blocks, returns nil, returns error}; after every operation GetKeys/GetKey/GetKeysWithData and the call's results are compared with a reference model; finally every armed delay expires",
 		Quick: eng.Bounds{PB: 0, Cap: 8000000}, Thorough: eng.Bounds{PB: 0},
 		Body: keyedHistory(5),
 	})
